@@ -33,7 +33,7 @@ checks = {
          'Every byte prefix of every repository YANG file <= 2 KiB (token-boundary prefixes otherwise), sampled single/double token mutations, pathological nesting / concatenation / argument sizes, typedef / grouping / identity / import cycles and faulty openers are loaded in worker processes under panic recovery, fatal-error attribution and a per-input cpu/rss watchdog; every module that loads is walked through all public accessors.',
          'exhaustive only in truncation points per corpus text; mutations sampled', 'DESIGN.md 3/C14'),
  'C16': ('exploration', 'runtime monitor: truth oracle (math/big, code-point order, enum value) for leaf OP literal vs visibility in reads, edits, where rows and filtered notification events; differential run without the condition',
-         'All 6 operators x 12 operand types x catalog values straddling the literal x {set, unset, unset with default} x placement {when on container, leaf, leaf-list, list (per entry), uses (incl. nested uses), augment; operands behind paths of 2-3 segments and '..' steps; own + inherited conditions stacked; where on top-level and nested lists; filter on a scripted notification stream; when during an edit}.',
+         'All 6 operators x 12 operand types x catalog values straddling the literal x {set, unset, unset with default} x placement {when on container, leaf, leaf-list, list (per entry), uses (incl. nested uses), augment; operands behind paths of 2-3 segments and parent (..) steps; own + inherited conditions stacked; where on top-level and nested lists; filter on a scripted notification stream; when during an edit}.',
          'literals inside the operand type; context node as the library documents (container: itself, leaf: parent); no absolute paths (not in the library grammar)', 'DESIGN.md 3/C16'),
  'C19': ('exploration', 'runtime monitor: encoding/xml strict parse of writer output vs model tree; ReadXMLDoc round trip into a capture store; sibling interleavings of reference documents',
          'Both XML writers (and pretty printing) on generated trees with an XML-hostile text catalog, whitespace family, all leaf types, second-module namespaces, submodule nodes, a namespace URI with reserved characters, documents starting below the root; output must be a single-root well-formed document denoting the tree; importing it must reproduce the tree; 5 random sibling interleavings of a reference encoding must import to the same tree.',
@@ -48,7 +48,7 @@ checks = {
          'Each scenario (operation x entry point x trees) is run once fault-free to measure its callback trace, then once per callback position with that callback failing on the source or target side; the offline checker verifies begin/end pairing per node identity, the set of notified nodes, wrapping of the injected error and absence of writes after the failure. Exhaustive in k per scenario; scenarios are sampled.',
          'trusts the recording wrapper (pass-through) and the reference store', 'DESIGN.md 3/C12'),
  'C18': ('exploration', 'runtime monitor: reference model (delete/replace) vs store read directly after every step + key-uniqueness scan + Find probes',
-         'Histories of 3..15 delete / replace / insert / upsert operations (first, middle, last, only entry; whole list; container; delete-then-reinsert; several deletes through one held list selection; payloads stating another key than the addressed entry's) are replayed against model and library; after each step the store equals the model, no list holds a duplicate key, the removed node is no longer found and remaining nodes are.',
+         'Histories of 3..15 delete / replace / insert / upsert operations (first, middle, last, only entry; whole list; container; delete-then-reinsert; several deletes through one held list selection; payloads stating another key than that of the addressed entry) are replayed against model and library; after each step the store equals the model, no list holds a duplicate key, the removed node is no longer found and remaining nodes are.',
          'trusts dp.DeleteAt/Apply (model); stores: reference store, nodeutil.Reflect / nodeutil.Node over Go maps, slices and reflect.StructOf structs (zero value = unset in struct shape)', 'DESIGN.md 3/C18'),
  'C03': ('exploration', 'runtime monitor: executable reference model (keyed deep merge) vs target store read directly; error class via errors.Is',
          'Every edit call on a generated (schema, target, source, strategy, entry point, direction, source implementation) tuple and on histories of up to 6 such calls is compared with an executable model written from the statement; the target is a harness store read without any library read path. Held on the executions observed.',
